@@ -82,3 +82,17 @@ fn c17_yaml_node_at_end_of_64_byte_text() {
     }
     eprintln!("n={n} seen_64={seen_64}");
 }
+
+/// open (C21): a text whose last byte is an unquoted delimiter loses the trailing
+/// empty field of its last row; with a final record separator the field is there.
+#[test]
+fn c21_trailing_delimiter_loses_empty_field() {
+    use succinctly::dsv::Dsv;
+    let with_nl = Dsv::parse(b"a,\n");
+    let f: Vec<Vec<u8>> = with_nl.rows().next().unwrap().fields().map(|x| x.to_vec()).collect();
+    assert_eq!(f, vec![b"a".to_vec(), b"".to_vec()]);
+    let without = Dsv::parse(b"a,");
+    let g: Vec<Vec<u8>> = without.rows().next().unwrap().fields().map(|x| x.to_vec()).collect();
+    assert_eq!(g, vec![b"a".to_vec()], "finding is stale: the trailing empty field is now returned");
+    assert_eq!(without.row(0).unwrap().get(1), None, "finding is stale");
+}
